@@ -345,4 +345,40 @@ theorem acceptableA_congr {s t : State} {id : Id} {v : ValsA} (ha : ∀ j, t.a.l
   unfold AcceptableA HeldByOther State.bEx State.aEx
   simp only [ha, hb]
 
+/-! ### the transitive referrers of an entity through `boss` -/
+
+/-- `Reports s id j`: following `boss` from `j` leads to `id` in one or more steps -/
+inductive Reports (s : State) (id : Id) : Id → Prop
+  | direct {j : Id} {e : EntA} : s.a.lookup j = some e → e.boss.getD [] = id → Reports s id j
+  | step {j k : Id} {e : EntA} : s.a.lookup j = some e → e.boss.getD [] = k → Reports s id k → Reports s id j
+
+theorem Reports.exists {s : State} {id j : Id} (h : Reports s id j) : ∃ e, s.a.lookup j = some e := by
+  cases h with
+  | direct h1 _ => exact ⟨_, h1⟩
+  | step h1 _ _ => exact ⟨_, h1⟩
+
+/-- a cascading delete removes every transitive referrer -/
+theorem boss_cascade_removes {s s' : State} {id j : Id} (hi : Inv s) (h : deleteATop s id = .ok s')
+    (hr : Reports s id j) : s'.a.lookup j = none := by
+  have p := deleteATop_spec hi.toInvCore hi.boss h
+  have key : ∀ (j k : Id) (e : EntA), s.a.lookup j = some e → e.boss.getD [] = k → k ≠ [] → s'.a.lookup k = none →
+      s'.a.lookup j = none := by
+    intro j k e hj hk hne hgone
+    cases hl : s'.a.lookup j with
+    | none => rfl
+    | some e' =>
+      have h1 := p.sub j e' hl
+      rw [hj] at h1; cases h1
+      have := p.boss j e hl (by rw [hk]; exact hne) (by simp)
+      rw [hk] at this
+      simp [State.aEx, hgone] at this
+  induction hr with
+  | direct h1 h2 => exact key _ _ _ h1 h2 (deleteATop_id_ne h) p.gone
+  | @step j' k' e' h1 h2 h3 ih =>
+    obtain ⟨ek, hek⟩ := h3.exists
+    have hkne : k' ≠ [] := by
+      rintro rfl
+      rw [hi.idA] at hek; cases hek
+    exact key _ _ _ h1 h2 hkne ih
+
 end StorageModel.C06
